@@ -188,6 +188,15 @@ impl<'a> Gen<'a> {
         }
         self.p.push(0);
     }
+    /// a TXT-like record with 1100..9000 bytes of data made of label-shaped decoys (a reader that follows a pointer to the wrong place finds a name there)
+    pub fn big_rr(&mut self) {
+        self.name(true);
+        put16(&mut self.p, 16); put16(&mut self.p, 1); put32(&mut self.p, self.r.next() as u32);
+        let n = *self.r.pick(&[1100usize, 2100, 4200, 9000]) + self.r.below(64) as usize;
+        put16(&mut self.p, n as u16);
+        let mut k = 0;
+        while k < n { let b = match k % 7 { 0 => 5, 6 => if self.r.chance(1, 3) { 0 } else { 3 }, _ => *self.r.pick(b"decoy") }; self.p.push(b); k += 1; }
+    }
     pub fn rr(&mut self, section: usize, force_type: Option<u16>) {
         let t = force_type.unwrap_or_else(|| *self.r.pick(&[1u16, 1, 28, 2, 5, 12, 15, 6, 39, 16, 99, 33, 257]));
         if t == 41 { self.p.push(0); } else { self.name(true); }
@@ -223,7 +232,9 @@ pub fn gen_valid(r: &mut Rng, compress: bool) -> Vec<u8> {
     let mut flags = g.r.next() as u16;
     if qr { flags |= 0x8000 } else { flags &= 0x7fff }
     put16(&mut g.p, flags);
-    let an = if qr { g.r.below(4) as usize } else { 0 };
+    // "far" family: one large opaque record first, so that the names after it -- and the pointers to them -- lie beyond offsets 1024 / 4096 / 8192
+    let far = qr && g.r.chance(1, 10);
+    let an = if qr { g.r.below(4) as usize + (if far { 2 } else { 0 }) } else { 0 };
     let ns = if qr { g.r.below(3) as usize } else { 0 };
     let mut ar = g.r.below(4) as usize;
     let with_opt = g.r.chance(1, 2);
@@ -232,7 +243,7 @@ pub fn gen_valid(r: &mut Rng, compress: bool) -> Vec<u8> {
     g.name(false);
     let qt = *g.r.pick(&[1u16, 28, 15, 255]);
     put16(&mut g.p, qt); put16(&mut g.p, 1);
-    for _ in 0..an { g.rr(1, None); }
+    for i in 0..an { if far && i == 0 { g.big_rr(); } else { g.rr(1, None); } }
     for _ in 0..ns { g.rr(2, None); }
     let opt_at = if with_opt { g.r.below(ar as u64) as usize } else { usize::MAX };
     for i in 0..ar { if i == opt_at { g.rr(3, Some(41)); } else { g.rr(3, None); } }
